@@ -429,11 +429,11 @@ def _out_values(out, times, what, allow_complex=False, source=None):
     return np.array(y)
 
 
-def _dir_global(axes, d, style_key="style"):
+def _dir_global(axes, d):
     if d is None:
         return None, None
     g = -float(d["scale"]) * _to_global(axes, d["u"])
-    return g, _vec(g, d[style_key])
+    return g, _vec(g, d["style"])
 
 
 def _pol_global(axes, p):
@@ -467,7 +467,6 @@ S_BOOL = st.booleans()
 S_CALL = st.sampled_from(["kw", "pos"])
 S_F1 = floats(-1.0, 1.0)
 S_F2 = floats(-2.0, 2.0)
-S_ANGLE = floats(0.0, 2 * math.pi)
 
 
 def _ident(v):
@@ -551,10 +550,6 @@ S_VECTOR = st.fixed_dictionaries(dict(u=S_UNITV, scale=S_SCALE, style=S_STYLE))
 S_VECTOR_OPT = _weighted((S_VECTOR, 7), (st.none(), 1))
 
 
-def local_vectors(optional=True):
-    return S_VECTOR_OPT if optional else S_VECTOR
-
-
 S_GRID = gens.grids(min_n=2, max_n=48)
 S_T0 = st.sampled_from([None, None, None, 1e3, -1e3, 1e6, -777.7, 0.1, -33.3])
 
@@ -612,14 +607,6 @@ def signal_specs(draw, grid=None, kinds=("sampled", "sampled", "int", "lists", "
     return spec
 
 
-def frame_specs():
-    return S_FRAME
-
-
-def position_specs():
-    return S_POSITION
-
-
 S_GAIN_G = st.tuples(S_F2, st.one_of(st.sampled_from([0.0, 0.0, 1.0]), S_F2)).map(list)
 S_PAIR2 = st.tuples(S_F2, S_F2).map(list)
 
@@ -635,10 +622,6 @@ S_RESPONSE = st.one_of(
     _resp("delay", st.tuples(st.one_of(st.sampled_from([0.0, 1.0, 2.0, 3.0]), floats(0.0, 8.0))).map(list)),
     _resp("gauss", st.tuples(S_F1, log_floats(0.05, 2.0)).map(list)),
     _resp("onesided", S_PAIR2), _resp("poly", S_PAIR2))
-
-
-def response_specs():
-    return S_RESPONSE
 
 
 S_AF = st.one_of(st.sampled_from([1.0, 2.0, 0.5]), log_floats(1e-3, 1e3))
@@ -665,18 +648,6 @@ S_DIPOLE = st.fixed_dictionaries(dict(
     heff=st.one_of(st.none(), log_floats(1e-2, 10.0)),
     thr=st.sampled_from([0.0, 1e-3, 1.0]), seed=gens.seeds32))
 S_ANY_ANTENNA = _weighted((S_H, 2), (S_DIPOLE, 1))
-
-
-def h_antennas(cplx=False):
-    return S_H_COMPLEX if cplx else S_H
-
-
-def dipoles():
-    return S_DIPOLE
-
-
-def any_antennas():
-    return S_ANY_ANTENNA
 
 
 def _is_identity(q):
